@@ -55,9 +55,48 @@ def unreported_hang(hist):
     return None
 
 
+def _op_has_faults(desc, rec):
+    f = rec.op.get("faults") or {}
+    if f.get("calls") or f.get("stores") or f.get("cut_at") or f.get("interrupt_at") or f.get("interrupt_at_op") \
+            or f.get("thread_start_fail"):
+        return True
+    cfg = rec.op.get("cfg", {})
+    if cfg.get("progress") in ("rec2fail", "bundled-fail", "bundled-sinkfail"):
+        return True
+    if desc.get("mode") == "foreign":
+        return True   # (a Registry holding entries of another plan: run raises on the unchanged code - not a supported use)
+    w = desc.get("world", {})
+    return bool(desc.get("cyclic") or w.get("bad_unpack") or w.get("bad_gather") or w.get("back_edges")
+                or w.get("back_arg_edges"))
+
+
+def unreported_breakage(desc, hist):
+    """Safety nets for every check, whatever the property under test is looking at: (a) a worker or display thread
+    that died with an exception; (b) a run without any injected fault that raised."""
+    import os
+
+    if os.environ.get("VERIF_NO_SAFETY_NET"):
+        return None
+    for r in hist.records:
+        sim = r.sim
+        if r.aborted:
+            continue
+        deaths = sim.thread_deaths
+        if r.op.get("cfg", {}).get("progress") == "bundled-sinkfail":
+            deaths = [d for d in deaths if "SinkError" not in d[2]]
+        if deaths:
+            return dict(oracle="thread-died", msg=f"a thread created by run died with an exception: {deaths[:3]}",
+                        tags={"safety_net": True})
+        if r.exc is not None and not _op_has_faults(desc, r):
+            cause = getattr(r.exc, "__cause__", None)
+            return dict(oracle="spurious-failure", msg=f"a run without any injected fault raised {r.exc!r:.300} / cause "
+                                                       f"{cause!r:.200}", tags={"safety_net": True})
+    return None
+
+
 def result(desc, hist, violations, extra=None):
     if not violations:
-        h = unreported_hang(hist)
+        h = unreported_hang(hist) or unreported_breakage(desc, hist)
         if h is not None:
             violations = [h]
     res = dict(
